@@ -273,7 +273,7 @@ static string op_name(const Op& op) {
 
 static void run() {
   vfs::reset();
-  if (!g_fd0_probe_failure.empty()) fail(g_probe_key == "fd0" ? "random_data/first_use_with_descriptor_0" : (g_probe_key == "first_open_failed" ? "random_data/never_recovers_from_failed_first_open" : (g_probe_key == "fork_during_refill" ? "random_data/unusable_in_forked_child" : "random_data/called_during_static_initialisation")), g_probe_key, g_fd0_probe_failure);
+  if (!g_fd0_probe_failure.empty()) fail(g_probe_key == "fd0" ? "random_data/first_use_with_descriptor_0" : (g_probe_key == "first_open_failed" ? "random_data/never_recovers_from_failed_first_open" : (g_probe_key == "fork_during_refill" ? "random_data/unusable_in_forked_child" : (g_probe_key == "in_forked_child" ? "random_int/out_of_range" : "random_data/called_during_static_initialisation"))), g_probe_key, g_fd0_probe_failure);
   set_entry_errno((int)pick({0, 0, EINTR, EAGAIN, ERANGE, EBADF}, "env.errno_on_entry"));
   int mode = choose(6, "dev.mode");
   uint64_t dseed = choose(1 << 20, "dev.seed");
@@ -584,7 +584,7 @@ static void probe_fork_while_refilling() {
   g_probe_key = "fork_during_refill";
   if (WIFEXITED(status) && WEXITSTATUS(status) == 5) g_fd0_probe_failure = "a process forked while another of its threads was refilling from the entropy device; in the child random_data never returned (3 s): it waits for something only the vanished thread could release";
   else if (WIFEXITED(status) && WEXITSTATUS(status) == 2) g_fd0_probe_failure = "a process forked while another of its threads was refilling from the entropy device; in the child random_data threw";
-  else if (WIFEXITED(status) && WEXITSTATUS(status) == 4) g_fd0_probe_failure = "a process forked while another of its threads was refilling from the entropy device; in the child random_int left [lo,hi]";
+  else if (WIFEXITED(status) && WEXITSTATUS(status) == 4) g_probe_key = "in_forked_child", g_fd0_probe_failure = "a process forked while another of its threads was refilling from the entropy device; in the child random_int left [lo,hi]";
   else g_fd0_probe_failure = "a process forked while another of its threads was refilling from the entropy device; the child died in random_data";
 }
 
